@@ -267,6 +267,59 @@ Proof.
     unfold cg_lens; cbn. repeat split; auto; apply (@zeros_length SAR).
 Qed.
 
+(* ---- symmetric, not necessarily definite: breakdown or termination, nothing else ---- *)
+(* A symmetric (possibly indefinite or singular), tol >= 0, budget >= n: if solve_cg returns at all (in exact
+   arithmetic a breakdown division is a panic), it returns Ok k with k <= n -- it can neither exhaust its
+   budget nor need more than n iterations *)
+Theorem cg_no_breakdown_terminates_R cols (b x0 : list R) max tol res x g :
+  0 <= tol -> (n <= max)%nat ->
+  @solve_cg SAR mulA n cols b x0 max tol = Ok (res, x, g) ->
+  exists k, res = IOk k /\ (k <= n)%nat.
+Proof.
+  intros Htol Hmax H.
+  destruct (solve_cg_cases _ _ _ _ _ _ H) as (ax & r0 & resid & Hb & Hx0 & Eax & Er0 & Hr0 & Hpos & Eres & Hcase).
+  destruct Hcase as [(_ & X & E)|(Ht0 & Hloop)].
+  { injection E as -> _ _. exists 0%nat. split; [reflexivity | lia]. }
+  set (s0 := cg_init x0 r0 resid tol) in *.
+  set (nb := @nz SAR (@norm2 SAR b)) in *.
+  assert (Hl0 : @cg_lens SAR n s0).
+  { unfold cg_lens, s0, cg_init; cbn. repeat split; auto; apply (@zeros_length SAR). }
+  assert (Hnz0 : @dot_raw AR r0 r0 <> 0).
+  { intros Hz0. apply norm2_zero_dot in Hz0. apply R_leb_false in Ht0.
+    rewrite Eres, Hz0 in Ht0. lra. }
+  set (Inv := fun (i : nat) (s : @cg_st SAR) =>
+         exists Rs Ps, @cg_hist SAR (body tol nb) s0 i s Rs Ps /\
+                       Forall (fun u => @dot_raw AR u u <> 0) (cg_r s :: Rs)).
+  assert (Hbound : forall i s, Inv i s -> (i <= n)%nat).
+  { intros i s (Rs & Ps & Hh & Han).
+    pose proof (@cg_hist_inv SAR FLR n mulA LO SYM tol nb s0 i s Rs Ps Hl0 Hh) as HI.
+    destruct (state_vectors _ _ _ _ _ HI) as (Hlens & Hcount & Hi1).
+    destruct (@cg_hist_conjugacy SAR FLR n mulA LO SYM tol nb s0 i s Rs Ps Hl0 Hh) as (Horth & _).
+    pose proof (@orth_family_bound SAR FLR n (cg_r s :: Rs) Hlens Horth Han). lia. }
+  assert (Hstep : forall i s s', Inv i s -> body tol nb i s = Ok (Continue s') -> Inv (S i) s').
+  { intros i s s' (Rs & Ps & Hh & Han) Eb.
+    exists (cg_r s :: Rs), (cg_p s' :: Ps). split; [econstructor; eauto|]. constructor; auto.
+    pose proof (@cg_hist_inv SAR FLR n mulA LO SYM tol nb s0 i s Rs Ps Hl0 Hh) as HI.
+    destruct (@cg_body_post SAR FLR n mulA LO SYM tol nb s0 i s Rs Ps _ HI Eb)
+      as (x' & r' & p & rho & rs & X & _ & _ & Ers & Eo).
+    change (@leb SAR) with R_leb in Eo. destruct (R_leb rs tol) eqn:Et; [discriminate Eo|].
+    injection Eo as ->. cbn [cg_r]. intros Hz0. apply norm2_zero_dot in Hz0.
+    apply R_leb_false in Et. apply R_div_Ok in Ers as (_ & ->). rewrite Hz0 in Et.
+    assert (0 < nb) by exact Hpos. nra. }
+  assert (H0 : Inv 1%nat s0).
+  { exists [], []. split; [constructor|]. repeat constructor. exact Hnz0. }
+  destruct (@iloop_char SAR _ (body tol nb) (@cg_final SAR) Inv Hstep max 1%nat s0 _ H0 Hloop)
+    as [(i & s & Hi & HI & Eb)|(s & HI & E)].
+  - pose proof (Hbound i s HI) as Hin. destruct HI as (Rs & Ps & Hh & Han).
+    pose proof (@cg_hist_inv SAR FLR n mulA LO SYM tol nb s0 i s Rs Ps Hl0 Hh) as HI.
+    destruct (@cg_body_post SAR FLR n mulA LO SYM tol nb s0 i s Rs Ps _ HI Eb)
+      as (x' & r' & p & rho & rs & X & _ & _ & _ & Eo).
+    match type of Eo with _ = (if ?c then _ else _) => destruct c end; [|discriminate Eo].
+    injection Eo as -> _ _. exists i. split; [reflexivity | exact Hin].
+  - exfalso. pose proof (Hbound _ s HI). lia.
+Qed.
+
+
 (* ---- tol = 0: conjugate gradients as a direct solver ---- *)
 Lemma dot_self_zero (v : list R) : @dot_raw AR v v = 0 -> v = repeat 0 (length v).
 Proof.
